@@ -272,7 +272,8 @@ theorem psetWF0K_of_WF0 (ko : KeyOps) (p : LPset) (h : LPsetWF0 ko p) : LPsetWF0
 /-- MAIN (the former GOAL `pset_v0_parse_wf`): every version-0 PSET that `PSET.parse` returns and whose input scopes build
     no issuance from fields of their own (`LPset.noOwnIssuance`, decidable on the object: `LInputScope.asset_issuance`
     computed from the scope's `pset` fields alone is None — in particular every PSET without `pset 00/01` input fields)
-    is well-formed in the sense `LPsetWF0K`. The condition cannot be dropped: see `pset_v0_own_issuance_unparseable`. -/
+    is well-formed in the sense `LPsetWF0K`. The condition cannot be dropped (a scope's own, now always well-formed, issuance replaces that of the global
+    transaction: `pset_v0_own_issuance_overrides`). -/
 theorem pset_v0_parse_wf (ko : KeyOps) (b : Bytes) (p : LPset) (h : LPset.parse ko b = some p)
     (hv : p.version ≠ some 2) (hfree : p.noOwnIssuance = true) : LPsetWF0K ko p :=
   LPset.parse_wf_v0 ko b p h hv hfree
@@ -290,19 +291,17 @@ set_option maxRecDepth 100000 in
 example : (LPset.parse trivialKo issuancePsetFull).map (fun p => (p.noOwnIssuance, decide (p.version ≠ some 2)))
     = some (true, true) := by decide +kernel
 
-/-- known finding C18-KF1, on the model: with `pset 01` (own issuance commitment) and a token commitment of 5 bytes in
-    an input scope, the PSET is accepted and serialises, but the bytes written are refused (the rebuilt global
-    transaction is no Elements transaction) — so `noOwnIssuance` cannot be dropped from `pset_v0_parse_ser_parse` -/
+/-- finding C18-KF1 (FIXED by `fixes/c18-kf1.diff`), on the model: with `pset 01` (own issuance commitment) and a token
+    commitment of 5 bytes in an input scope. Before the fix the PSET was accepted and serialised, and the bytes written
+    were refused (theorem `pset_v0_own_issuance_unparseable` of round 6, no longer true of the fixed code and replaced by
+    the statement below: the input is refused at parse time). General statements: `Props/C18W.lean`. -/
 def malformedOwnPset : Bytes :=
   psetMagic ++ writeKVs [([0x00], LTx.ser peginTx)]
     ++ writeKVs [(LInField.key .issueCommitment, 0x08 :: List.replicate 32 6), (LInField.key .tokenCommitment, [1, 2, 3, 4, 5])]
     ++ writeKVs []
 
 set_option maxRecDepth 100000 in
-theorem pset_v0_own_issuance_unparseable :
-    ((LPset.parse trivialKo malformedOwnPset).bind LPset.ser).isSome = true
-    ∧ ((LPset.parse trivialKo malformedOwnPset).bind LPset.ser).bind (LPset.parse trivialKo) = none
-    ∧ (LPset.parse trivialKo malformedOwnPset).map LPset.noOwnIssuance = some false := by
+theorem pset_v0_own_issuance_malformed_refused : LPset.parse trivialKo malformedOwnPset = none := by
   decide +kernel
 
 end Embit.Props.C18Z
